@@ -295,6 +295,10 @@ def units_B(tier):
             U.must_fail_twin(r, "vacuity.must_fail_twin", lambda: ST.unit_stream_cleanup(twin=True))
         return r
     us.append(("C08.entry_points.no_input_stream_left_behind", mks))
+    from props import c08_nullguard as NG
+    from props.common import wrap as _wrap
+    for f in NG.FUNCS:
+        _wrap(us, "C08.%s.undefined_element_reported_not_dereferenced" % f, NG.unit_null_guards, f)
     return us
 
 
